@@ -46,7 +46,7 @@ BLOCK = 32768
 BIN = "replay_process"
 BIN_PIDFD = "replay_process_pidfd"
 CHILD = "c20_child"
-SHARDS = 4
+SHARDS = {"quick": 4, "thorough": 6}
 MODEL_KEYS = ("kind", "nin", "nout", "nerr", "wchunk", "rchunk", "mode", "hold", "gate", "pipein", "take", "status",
               "driver")
 
@@ -287,8 +287,7 @@ def run(run, tier, replay):
 
     def phase(name):
         vlib.log("C20 [%5.1fs] %s" % (time.time() - t0, name))
-    for m in ("Process", "Gen_Process"):
-        vlib.sany(m)
+    vlib.sany("Gen_Process")          # EXTENDS Process: SANY checks both modules in one go
     phase("sany done")
     have_nightly = nightly_available()
     tmp = vlib.scratch()
@@ -383,7 +382,7 @@ def run(run, tier, replay):
                 raise vlib.ToolError("model: concurrent program does not complete on io_uring: %s" % p)
         extra = []
         if tier != "quick":
-            extra = random_cases(1500, vlib.seed(), len(cases))
+            extra = random_cases(1000, vlib.seed(), len(cases))
         allcases = cases + extra
         run.note("programs_from_model", len(cases))
         run.note("random_byte_programs", len(extra))
@@ -405,12 +404,13 @@ def run(run, tier, replay):
         for pidfd, _ in builds:
             build(pidfd)
         phase("harness built")
-        # quick: every program once, alternating between the two wait paths (the prediction does not
-        # depend on the path); thorough: every program on both.  Shards run in parallel.
+        # quick: every program once, alternating (in groups of 6, so that every helper / write style reaches
+        # both) between the two wait paths - the prediction does not depend on the path; thorough: every
+        # program on both.  Shards run in parallel.
         jobs = []
         for bi, (pidfd, binname) in enumerate(builds):
-            mine = [c for c in allcases if tier != "quick" or len(builds) == 1 or c["id"] % 2 == bi]
-            nsh = SHARDS // len(builds)
+            mine = [c for c in allcases if tier != "quick" or len(builds) == 1 or (c["id"] // 6) % 2 == bi]
+            nsh = max(1, SHARDS[tier] // len(builds))
             for k in range(nsh):
                 part = mine[k::nsh]
                 if part:
